@@ -212,11 +212,13 @@ def explore(ctx):
             pass
 
     removes = [[], ['LinesPass::0'], ['ClangBinarySearchPass::replace-function-def-with-decl', 'ClangBinarySearchPass::remove-unused-function'],
-               ['ClangPass::rename-fun', 'BlankPass'], ['BalancedPass::curly', 'bogus']]
+               ['ClangPass::rename-fun', 'BlankPass'], ['BalancedPass::curly', 'bogus'],
+               # names that extend the name of another scheduled entry: only the named entry goes
+               ['LinesPass::10'], ['BalancedPass::curly2', 'ClexPass::rm-toks-16'], ['ClexPass::rm-tok-pattern-8', 'LinesPass::1']]
     combos = list(itertools.product([[], ['slow'], ['windows'], ['slow', 'windows']], [False, True], [False, True]))
     for name, d in shipped.items():
         for options, not_c, renaming in combos:
-            for removed in (removes if not ctx.quick() else removes[:3]):
+            for removed in (removes if not ctx.quick() else removes[:3] + removes[5:]):
                 one(name, d, options, removed, not_c, renaming, 'shipped')
     n = 150 if ctx.quick() else 1500
     small = {'first': shipped['delta.json']['first'], 'main': shipped['all.json']['main'][:12], 'last': shipped['all.json']['last'][:6]}
